@@ -395,6 +395,13 @@ impl<'a, T: Evaluate> PiecewiseEvaluator<'a, T> {
     // instances for references.
     #[inline]
     pub fn evaluate(&mut self, x: f64) -> f64 {
+        // NaN is unordered: like direct evaluation, answer it from the last
+        // segment, and leave the cursor and the remembered argument alone so
+        // that later queries are unaffected.
+        if x.is_nan() {
+            return self.last.evaluate(x);
+        }
+
         // If the new evaluation is for value higher than previous
         // one, we want to start searching for the segment from the
         // last segment we have recorded: we already know there is no
